@@ -94,12 +94,20 @@ def take_axis(ctx, shape, axis, lkind, k, indexing='label', form='list', mode=No
     return ctx.done(same(ctx, r[1], _select_axis(ref, pos, src), attrs=attrs), ctx.observe(r[1]))
 
 
-def compress_axis(ctx, shape, axis):
+def compress_axis(ctx, shape, axis, maskform='ndarray'):
     nd = len(shape)
     kw, pos = _axarg(DIMS[:nd], axis)
     a, ref, dims, labels, attrs = _build(ctx, shape, ['U', 'i', 'f', 'i'][:nd])
     bits = [bool(ctx.bool('m%d' % j)) for j in range(shape[pos])]
-    r = ctx.call(lambda: a.compress_axis(ctx.nparray(bits, kind='b'), **kw))
+    if maskform == 'ndarray':
+        mask = ctx.nparray(bits, kind='b')
+    elif maskform == 'list':
+        mask = list(bits)
+    else:
+        # a 1-D boolean DimArray: the axis= argument says where it applies, whatever the mask's own dimension is called
+        mname = {'dimarray-same': dims[pos], 'dimarray-other': dims[(pos + 1) % nd], 'dimarray-default': 'x0'}[maskform]
+        mask = ctx.da.DimArray(ctx.nparray(bits, kind='b'), axes=[(mname, ctx.nparray(list(range(len(bits))), kind='i'))])
+    r = ctx.call(lambda: a.compress_axis(mask, **kw))
     if r[0] != 'ok':
         return ctx.done(False, r[1])
     return ctx.done(same(ctx, r[1], _select_axis(ref, pos, [j for j, b in enumerate(bits) if b]), attrs=attrs), ctx.observe(r[1]))
@@ -201,6 +209,13 @@ def templates():
             add('take-pos-%s-%s-%s' % ('x'.join(map(str, shape)), axis, form), 'take_axis', cost=1, shape=shape, axis=axis, lkind='U', k=3, indexing='position', form=form)
     for shape, axis in (([3], 0), ([2, 3], 1), ([3, 2], 'name0'), ([2, 3, 2], 1), ([1, 2], 0)):
         add('compress-%s-%s' % ('x'.join(map(str, shape)), axis), 'compress_axis', cost=0.5, shape=shape, axis=axis)
+    for form in ('list', 'dimarray-same', 'dimarray-other', 'dimarray-default'):
+        for shape, axis in (([2, 2], 1), ([3, 3], 'name0'), ([2, 2, 2], 1)):
+            add('compress-%s-%s-%s' % (form, 'x'.join(map(str, shape)), axis), 'compress_axis', cost=0.5, shape=shape, axis=axis, maskform=form)
+    # every other axis has length 1
+    for shape, ai in (([3, 1], 0), ([1, 3], 1), ([1, 2, 1], 1), ([2, 1, 1], 0)):
+        for mv in (None, 0, 1):
+            add('dropna-singletons-%s-mv%s' % ('x'.join(map(str, shape)), mv), 'dropna', cost=0.3, shape=shape, axis=ai, minvalid=mv)
     for n in (1, 2, 3, 4):
         add('dropna-1d-n%d' % n, 'dropna', cost=0.1 * 2 ** n, shape=[n], axis=0)
     add('dropna-1d-U', 'dropna', cost=0.5, shape=[3], axis=0, lkind='U')
